@@ -62,6 +62,8 @@ type attempt struct {
 }
 
 type pcfg struct {
+	hintBroken bool // the scheduler's spawn prediction failed once for this configuration: stop waiting on it
+
 	Stream string    `json:"stream"`
 	Group  bool      `json:"group"`
 	Base   []string  `json:"base"`
@@ -305,6 +307,9 @@ func runComputeSchedule(c *pcfg, quiet time.Duration, choose func(depth int, ena
 	depth := 0
 	expect := len(c.Base)
 	waitMax := 2 * time.Second
+	if c.hintBroken {
+		waitMax = 20 * time.Millisecond
+	}
 	for {
 		// wait until as many attempts are parked as the harness's own reading of the table predicts (this only
 		// makes the enumeration deterministic; the verdict comes from the Coq check of what was observed)
@@ -324,6 +329,7 @@ func runComputeSchedule(c *pcfg, quiet time.Duration, choose func(depth int, ena
 			if time.Now().After(deadline) {
 				if len(en) > 0 {
 					waitMax = 20 * time.Millisecond // the prediction is off for this configuration: stop trusting it
+					c.hintBroken = true
 					break
 				}
 				tr.Stuck = true
@@ -641,6 +647,79 @@ func deepCase(variant int) *pcfg {
 	return c
 }
 
+// wideCase: a task tree with more than 4 attempts per initial vulnerability (ungrouped): V1's attempt
+// introduces three vulnerabilities, each follow-up introduces two more.  2 + 3 + 6 = 11 attempts for 2 initial
+// vulnerabilities (variant 1: 3 initial vulnerabilities, 15 attempts).
+func wideCase(variant int) *pcfg {
+	c := &pcfg{Stream: "wide", Group: false, Base: []string{"V1", "V2"}}
+	c.Table = []attempt{
+		{IDs: []string{"V1"}, Updates: []updSpec{{"alpha", "1.0.0"}}, Fixed: []string{"V1"}, Intro: []string{"N1", "N2", "N3"}},
+		{IDs: []string{"V2"}, Updates: []updSpec{{"beta", "1.0.0"}}, Fixed: []string{"V2"}},
+	}
+	if variant == 1 {
+		c.Base = append(c.Base, "V3")
+		c.Table = append(c.Table, attempt{IDs: []string{"V3"}, Updates: []updSpec{{"gamma", "1.0.0"}}, Fixed: []string{"V3"},
+			Intro: []string{"N1", "N2", "N3"}})
+	}
+	vers := []string{"1.0.1", "1.1.0", "2.0.0", "10.0.0"}
+	grand := map[string][]string{"N1": {"N4", "N5"}, "N2": {"N6", "N7"}, "N3": {"N8", "N9"}}
+	roots := []string{"V1"}
+	if variant == 1 {
+		roots = append(roots, "V3")
+	}
+	pk := map[string]string{"V1": "alpha", "V3": "gamma"}
+	for _, root := range roots {
+		for i, n := range []string{"N1", "N2", "N3"} {
+			c.Table = append(c.Table, attempt{IDs: []string{root, n}, Updates: []updSpec{{pk[root], vers[i]}, {"beta", vers[i]}},
+				Fixed: []string{root}, Intro: grand[n]})
+			for j, g := range grand[n] {
+				third := "gamma"
+				if pk[root] == "gamma" {
+					third = "alpha"
+				}
+				c.Table = append(c.Table, attempt{IDs: []string{root, n, g},
+					Updates: []updSpec{{pk[root], vers[(i+j+1)%4]}, {"beta", vers[(i+2*j+2)%4]}, {third, vers[i]}},
+					Fixed:   []string{root}})
+			}
+		}
+	}
+	return c
+}
+
+// sampleCompute runs n seeded random completion orders of a configuration whose order space is too large
+// to enumerate.
+func sampleCompute(c *pcfg, quiet time.Duration, n int, rnd *rand.Rand) *pcase {
+	pc := &pcase{Cfg: *c, Truncated: true}
+	seen := map[string]bool{}
+	for i := 0; i < 3*n && len(pc.Traces) < n; i++ {
+		tr, fin, ok := runComputeSchedule(c, quiet, func(depth int, en []string) int { return rnd.Intn(len(en)) })
+		if !ok || tr.Unordered {
+			continue
+		}
+		k := fmt.Sprint(tr.Order)
+		if seen[k] {
+			continue
+		}
+		seen[k] = true
+		for len(tr.Spawned) < len(tr.Order) {
+			tr.Spawned = append(tr.Spawned, nil)
+		}
+		idx := -1
+		for j, f := range pc.Finals {
+			if samePatches(f, fin) {
+				idx = j
+			}
+		}
+		if idx < 0 {
+			pc.Finals = append(pc.Finals, fin)
+			idx = len(pc.Finals) - 1
+		}
+		tr.Final = idx
+		pc.Traces = append(pc.Traces, tr)
+	}
+	return pc
+}
+
 func genComputeCases(seed int64, tier string, quiet time.Duration) ([]*pcase, map[string]int) {
 	rnd := rand.New(rand.NewSource(seed))
 	stats := map[string]int{}
@@ -676,6 +755,16 @@ func genComputeCases(seed int64, tier string, quiet time.Duration) ([]*pcase, ma
 		pc := exploreCompute(tieCase(v), quiet, limit)
 		cases = append(cases, pc)
 		stats["schedules_tie"] += len(pc.Traces)
+	}
+	nSample := 50
+	if tier == "thorough" {
+		nSample = 400
+	}
+	for v := 0; v < 2; v++ {
+		pc := sampleCompute(wideCase(v), quiet, nSample, rnd)
+		cases = append(cases, pc)
+		stats["schedules_wide_sampled"] += len(pc.Traces)
+		stats[fmt.Sprintf("tasks_%d", len(pc.Cfg.Table))]++
 	}
 	for v := 0; v < 3; v++ {
 		pc := exploreCompute(deepCase(v), quiet, limit)
